@@ -1,0 +1,271 @@
+//go:build verif
+
+// Contracts for govc (see /verif/DESIGN.md). Comment-only: compiled only with -tags verif.
+// Scalar definitions (the "one-line" specifications of property C18) are the spec functions below.
+package simd
+
+//@ spec func firstEq(h []byte, b byte, r int) bool = (r == -1 ==> (forall j :: 0 <= j && j < len(h) ==> h[j] != b)) && (r != -1 ==> 0 <= r && r < len(h) && h[r] == b && (forall j :: 0 <= j && j < r ==> h[j] != b))
+//@ spec func firstEq2(h []byte, a byte, b byte, r int) bool = (r == -1 ==> (forall j :: 0 <= j && j < len(h) ==> h[j] != a && h[j] != b)) && (r != -1 ==> 0 <= r && r < len(h) && (h[r] == a || h[r] == b) && (forall j :: 0 <= j && j < r ==> h[j] != a && h[j] != b))
+//@ spec func firstEq3(h []byte, a byte, b byte, c byte, r int) bool = (r == -1 ==> (forall j :: 0 <= j && j < len(h) ==> h[j] != a && h[j] != b && h[j] != c)) && (r != -1 ==> 0 <= r && r < len(h) && (h[r] == a || h[r] == b || h[r] == c) && (forall j :: 0 <= j && j < r ==> h[j] != a && h[j] != b && h[j] != c))
+//@ spec func isDigit(b byte) bool = b >= '0' && b <= '9'
+//@ spec func isWord(b byte) bool = (b >= 'A' && b <= 'Z') || (b >= 'a' && b <= 'z') || (b >= '0' && b <= '9') || b == '_'
+//@ spec func firstDigit(h []byte, r int) bool = (r == -1 ==> (forall j :: 0 <= j && j < len(h) ==> !isDigit(h[j]))) && (r != -1 ==> 0 <= r && r < len(h) && isDigit(h[r]) && (forall j :: 0 <= j && j < r ==> !isDigit(h[j])))
+//@ spec func firstWord(h []byte, want bool, r int) bool = (r == -1 ==> (forall j :: 0 <= j && j < len(h) ==> isWord(h[j]) != want)) && (r != -1 ==> 0 <= r && r < len(h) && isWord(h[r]) == want && (forall j :: 0 <= j && j < r ==> isWord(h[j]) != want))
+//@ spec func firstInTable(h []byte, t *[256]bool, want bool, r int) bool = (r == -1 ==> (forall j :: 0 <= j && j < len(h) ==> t[h[j]] != want)) && (r != -1 ==> 0 <= r && r < len(h) && t[h[r]] == want && (forall j :: 0 <= j && j < r ==> t[h[j]] != want))
+//@ spec func pairAt(h []byte, a byte, b byte, off int, i int) bool = off >= 0 && 0 <= i && i + off < len(h) && h[i] == a && h[i+off] == b
+//@ spec func firstPair(h []byte, a byte, b byte, off int, r int) bool = (r == -1 ==> (forall j :: !pairAt(h, a, b, off, j))) && (r != -1 ==> pairAt(h, a, b, off, r) && (forall j :: 0 <= j && j < r ==> !pairAt(h, a, b, off, j)))
+//@ spec func allASCII(h []byte) bool = forall j :: 0 <= j && j < len(h) ==> h[j] < 0x80
+
+// ---- assembly kernels: contract assumed (bounded stand-in: govc asmcheck) ----
+
+//@ trusted func memchrAVX2
+//@   ensures firstEq(haystack, needle, result)
+//@ trusted func memchr2AVX2
+//@   ensures firstEq2(haystack, needle1, needle2, result)
+//@ trusted func memchr3AVX2
+//@   ensures firstEq3(haystack, needle1, needle2, needle3, result)
+//@ trusted func memchrPairAVX2
+//@   requires offset > 0 && len(haystack) >= 32 + offset
+//@   ensures firstPair(haystack, byte1, byte2, offset, result)
+//@ trusted func memchrWordAVX2
+//@   ensures firstWord(haystack, true, result)
+//@ trusted func memchrNotWordAVX2
+//@   ensures firstWord(haystack, false, result)
+//@ trusted func memchrDigitAVX2
+//@   ensures firstDigit(haystack, result)
+//@ trusted func isASCIIAVX2
+//@   ensures result == allASCII(data)
+
+// ---- generic SWAR kernels ----
+
+//@ func memchrGeneric
+//@   props C18 C07 C05
+//@   arith mixed
+//@   ensures firstEq(haystack, needle, result)
+//@   loop 1: invariant 0 <= idx && idx <= haystackLen && haystackLen == len(haystack)
+//@   loop 1: invariant forall j :: 0 <= j && j < idx ==> haystack[j] != needle
+//@   loop 1: decreases haystackLen - idx
+//@   loop 2: invariant 0 <= idx && idx <= haystackLen && haystackLen == len(haystack)
+//@   loop 2: invariant needleMask == uint64(needle) * 0x0101010101010101
+//@   loop 2: invariant forall j :: 0 <= j && j < idx ==> haystack[j] != needle
+//@   loop 2: decreases haystackLen - idx
+//@   loop 3: invariant 0 <= idx && idx <= haystackLen && haystackLen == len(haystack)
+//@   loop 3: invariant forall j :: 0 <= j && j < idx ==> haystack[j] != needle
+//@   loop 3: decreases haystackLen - idx
+
+//@ func memchr2Generic
+//@   props C18 C07 C05
+//@   arith mixed
+//@   ensures firstEq2(haystack, needle1, needle2, result)
+//@   loop 1: invariant 0 <= idx && idx <= haystackLen && haystackLen == len(haystack)
+//@   loop 1: invariant forall j :: 0 <= j && j < idx ==> haystack[j] != needle1 && haystack[j] != needle2
+//@   loop 1: decreases haystackLen - idx
+//@   loop 2: invariant 0 <= idx && idx <= haystackLen && haystackLen == len(haystack)
+//@   loop 2: invariant needleMask1 == uint64(needle1) * 0x0101010101010101 && needleMask2 == uint64(needle2) * 0x0101010101010101
+//@   loop 2: invariant forall j :: 0 <= j && j < idx ==> haystack[j] != needle1 && haystack[j] != needle2
+//@   loop 2: decreases haystackLen - idx
+//@   loop 3: invariant 0 <= idx && idx <= haystackLen && haystackLen == len(haystack)
+//@   loop 3: invariant forall j :: 0 <= j && j < idx ==> haystack[j] != needle1 && haystack[j] != needle2
+//@   loop 3: decreases haystackLen - idx
+
+//@ func memchr3Generic
+//@   props C18 C07 C05
+//@   arith mixed
+//@   ensures firstEq3(haystack, needle1, needle2, needle3, result)
+//@   loop 1: invariant 0 <= idx && idx <= haystackLen && haystackLen == len(haystack)
+//@   loop 1: invariant forall j :: 0 <= j && j < idx ==> haystack[j] != needle1 && haystack[j] != needle2 && haystack[j] != needle3
+//@   loop 1: decreases haystackLen - idx
+//@   loop 2: invariant 0 <= idx && idx <= haystackLen && haystackLen == len(haystack)
+//@   loop 2: invariant needleMask1 == uint64(needle1) * 0x0101010101010101 && needleMask2 == uint64(needle2) * 0x0101010101010101 && needleMask3 == uint64(needle3) * 0x0101010101010101
+//@   loop 2: invariant forall j :: 0 <= j && j < idx ==> haystack[j] != needle1 && haystack[j] != needle2 && haystack[j] != needle3
+//@   loop 2: decreases haystackLen - idx
+//@   loop 3: invariant 0 <= idx && idx <= haystackLen && haystackLen == len(haystack)
+//@   loop 3: invariant forall j :: 0 <= j && j < idx ==> haystack[j] != needle1 && haystack[j] != needle2 && haystack[j] != needle3
+//@   loop 3: decreases haystackLen - idx
+
+//@ func memchrDigitGeneric
+//@   props C18 C07 C05
+//@   ensures firstDigit(haystack, result)
+//@   loop 1: invariant -1 <= rangeindex && rangeindex < len(haystack) || (rangeindex == -1)
+//@   loop 1: invariant forall j :: 0 <= j && j <= rangeindex ==> !isDigit(haystack[j])
+//@   loop 1: decreases len(haystack) - rangeindex
+
+//@ func isWordChar
+//@   props C18 C07
+//@   ensures result == isWord(b)
+
+//@ func memchrWordGeneric
+//@   props C18 C07 C05
+//@   ensures firstWord(haystack, true, result)
+//@   loop 1: invariant -1 <= rangeindex && (rangeindex < len(haystack) || rangeindex == -1)
+//@   loop 1: invariant forall j :: 0 <= j && j <= rangeindex ==> !isWord(haystack[j])
+//@   loop 1: decreases len(haystack) - rangeindex
+
+//@ func memchrNotWordGeneric
+//@   props C18 C07 C05
+//@   ensures firstWord(haystack, false, result)
+//@   loop 1: invariant -1 <= rangeindex && (rangeindex < len(haystack) || rangeindex == -1)
+//@   loop 1: invariant forall j :: 0 <= j && j <= rangeindex ==> isWord(haystack[j])
+//@   loop 1: decreases len(haystack) - rangeindex
+
+//@ func memchrInTableGeneric
+//@   props C18 C07 C05
+//@   requires table != nil
+//@   ensures firstInTable(haystack, table, true, result)
+//@   loop 1: invariant -1 <= rangeindex && (rangeindex < len(haystack) || rangeindex == -1)
+//@   loop 1: invariant forall j :: 0 <= j && j <= rangeindex ==> !table[haystack[j]]
+//@   loop 1: decreases len(haystack) - rangeindex
+
+//@ func memchrNotInTableGeneric
+//@   props C18 C07 C05
+//@   requires table != nil
+//@   ensures firstInTable(haystack, table, false, result)
+//@   loop 1: invariant -1 <= rangeindex && (rangeindex < len(haystack) || rangeindex == -1)
+//@   loop 1: invariant forall j :: 0 <= j && j <= rangeindex ==> table[haystack[j]]
+//@   loop 1: decreases len(haystack) - rangeindex
+
+//@ func isASCIIGeneric
+//@   props C18 C07 C05
+//@   arith mixed
+//@   ensures result == allASCII(data)
+//@   loop 1: invariant 0 <= i && i <= dataLen && dataLen == len(data)
+//@   loop 1: invariant forall j :: 0 <= j && j < i ==> data[j] < 0x80
+//@   loop 1: decreases dataLen - i
+//@   loop 2: invariant 0 <= idx && idx <= dataLen && dataLen == len(data)
+//@   loop 2: invariant forall j :: 0 <= j && j < idx ==> data[j] < 0x80
+//@   loop 2: decreases dataLen - idx
+//@   loop 3: invariant 0 <= idx && idx <= dataLen && dataLen == len(data)
+//@   loop 3: invariant forall j :: 0 <= j && j < idx ==> data[j] < 0x80
+//@   loop 3: decreases dataLen - idx
+
+//@ func FirstNonASCII
+//@   props C18 C07 C05
+//@   ensures (result == -1 ==> allASCII(data)) && (result != -1 ==> 0 <= result && result < len(data) && data[result] >= 0x80 && (forall j :: 0 <= j && j < result ==> data[j] < 0x80))
+//@   loop 1: invariant -1 <= rangeindex && (rangeindex < len(data) || rangeindex == -1)
+//@   loop 1: invariant forall j :: 0 <= j && j <= rangeindex ==> data[j] < 0x80
+//@   loop 1: decreases len(data) - rangeindex
+
+// ---- dispatch wrappers: proved for hasAVX2 true and false (free boolean) ----
+
+//@ func Memchr
+//@   props C18 C07 C12 C05
+//@   ensures firstEq(haystack, needle, result)
+//@ func Memchr2
+//@   props C18 C07 C12 C05
+//@   ensures firstEq2(haystack, needle1, needle2, result)
+//@ func Memchr3
+//@   props C18 C07 C12 C05
+//@   ensures firstEq3(haystack, needle1, needle2, needle3, result)
+//@ func MemchrPair
+//@   props C18 C07 C12 C05
+//@   ensures firstPair(haystack, byte1, byte2, offset, result)
+//@ func MemchrWord
+//@   props C18 C07 C12 C05
+//@   ensures firstWord(haystack, true, result)
+//@ func MemchrNotWord
+//@   props C18 C07 C12 C05
+//@   ensures firstWord(haystack, false, result)
+//@ func MemchrInTable
+//@   props C18 C07 C12 C05
+//@   ensures table != nil ==> firstInTable(haystack, table, true, result)
+//@   ensures table == nil ==> result == -1
+//@ func MemchrNotInTable
+//@   props C18 C07 C12 C05
+//@   ensures table != nil ==> firstInTable(haystack, table, false, result)
+//@   ensures table == nil ==> result == -1
+//@ func MemchrDigit
+//@   props C18 C07 C12 C05
+//@   ensures firstDigit(haystack, result)
+//@ func MemchrDigitAt
+//@   props C18 C07 C12 C05
+//@   ensures at < 0 ==> result == -1
+//@   ensures at >= 0 && result == -1 ==> (forall j :: at <= j && j < len(haystack) ==> !isDigit(haystack[j]))
+//@   ensures result != -1 ==> 0 <= at && at <= result && result < len(haystack) && isDigit(haystack[result]) && (forall j :: at <= j && j < result ==> !isDigit(haystack[j]))
+//@ func IsASCII
+//@   props C18 C07 C12 C05
+//@   ensures result == allASCII(data)
+
+//@ func memchrPairGeneric
+//@   props C18 C07 C05
+//@   arith mixed
+//@   ensures firstPair(haystack, byte1, byte2, offset, result)
+//@   loop 1: invariant 0 <= i && i <= haystackLen && haystackLen == len(haystack) && offset >= 0 && offset < haystackLen
+//@   loop 1: invariant forall j :: 0 <= j && j < i ==> !pairAt(haystack, byte1, byte2, offset, j)
+//@   loop 1: decreases haystackLen - offset - i
+//@   loop 2: invariant 0 <= idx && haystackLen == len(haystack) && offset >= 0 && idx + offset <= haystackLen
+//@   loop 2: invariant needleMask1 == uint64(byte1) * 0x0101010101010101 && needleMask2 == uint64(byte2) * 0x0101010101010101
+//@   loop 2: invariant forall j :: 0 <= j && j < idx ==> !pairAt(haystack, byte1, byte2, offset, j)
+//@   loop 2: decreases haystackLen - idx
+//@   loop 2: lemma !pairAt(haystack, byte1, byte2, offset, idx-8)
+//@   loop 2: lemma !pairAt(haystack, byte1, byte2, offset, idx-7)
+//@   loop 2: lemma !pairAt(haystack, byte1, byte2, offset, idx-6)
+//@   loop 2: lemma !pairAt(haystack, byte1, byte2, offset, idx-5)
+//@   loop 2: lemma !pairAt(haystack, byte1, byte2, offset, idx-4)
+//@   loop 2: lemma !pairAt(haystack, byte1, byte2, offset, idx-3)
+//@   loop 2: lemma !pairAt(haystack, byte1, byte2, offset, idx-2)
+//@   loop 2: lemma !pairAt(haystack, byte1, byte2, offset, idx-1)
+//@   loop 3: invariant hasZero & 0x7f7f7f7f7f7f7f7f == 0
+//@   loop 3: invariant (haystack[idx+0] == byte1 && haystack[idx+0+offset] == byte2) ==> hasZero & 0x80 != 0
+//@   loop 3: invariant (haystack[idx+1] == byte1 && haystack[idx+1+offset] == byte2) ==> hasZero & 0x8000 != 0
+//@   loop 3: invariant (haystack[idx+2] == byte1 && haystack[idx+2+offset] == byte2) ==> hasZero & 0x800000 != 0
+//@   loop 3: invariant (haystack[idx+3] == byte1 && haystack[idx+3+offset] == byte2) ==> hasZero & 0x80000000 != 0
+//@   loop 3: invariant (haystack[idx+4] == byte1 && haystack[idx+4+offset] == byte2) ==> hasZero & 0x8000000000 != 0
+//@   loop 3: invariant (haystack[idx+5] == byte1 && haystack[idx+5+offset] == byte2) ==> hasZero & 0x800000000000 != 0
+//@   loop 3: invariant (haystack[idx+6] == byte1 && haystack[idx+6+offset] == byte2) ==> hasZero & 0x80000000000000 != 0
+//@   loop 3: invariant (haystack[idx+7] == byte1 && haystack[idx+7+offset] == byte2) ==> hasZero & 0x8000000000000000 != 0
+//@   loop 3: invariant forall j :: 0 <= j && j < idx + tz64(hasZero) / 8 && j < idx + 8 ==> !pairAt(haystack, byte1, byte2, offset, j)
+//@   loop 3: decreases hasZero
+//@   loop 4: invariant 0 <= idx && idx <= haystackLen && haystackLen == len(haystack) && offset >= 0 && offset < haystackLen
+//@   loop 4: invariant forall j :: 0 <= j && j < idx ==> !pairAt(haystack, byte1, byte2, offset, j)
+//@   loop 4: decreases haystackLen - offset - idx
+
+// ---- substring search ----
+
+//@ opaque spec func occAt(h []byte, n []byte, i int) bool = 0 <= i && i + len(n) <= len(h) && (forall k :: 0 <= k && k < len(n) ==> h[i+k] == n[k])
+//@ spec func firstOcc(h []byte, n []byte, r int) bool = (r == -1 ==> (forall p :: !occAt(h, n, p))) && (r != -1 ==> occAt(h, n, r) && (forall p :: 0 <= p && p < r ==> !occAt(h, n, p)))
+
+//@ func bytesEqual
+//@   props C18 C07
+//@   ensures result == (len(a) == len(b) && (forall k :: 0 <= k && k < len(a) ==> a[k] == b[k]))
+
+//@ func SelectRareBytes
+//@   props C18 C07 C05
+//@   ensures len(needle) > 0 ==> 0 <= result.Index1 && result.Index1 < len(needle) && needle[result.Index1] == result.Byte1
+//@   ensures len(needle) > 0 ==> 0 <= result.Index2 && result.Index2 < len(needle) && needle[result.Index2] == result.Byte2
+//@   loop 1: invariant 2 <= i && i <= n && n == len(needle)
+//@   loop 1: invariant 0 <= idx1 && idx1 < n && needle[idx1] == byte1 && 0 <= idx2 && idx2 < n && needle[idx2] == byte2
+//@   loop 1: decreases n - i
+
+//@ func memmemSingle
+//@   props C18 C07
+//@   requires len(needle) >= 1 && 0 <= rareIdx && rareIdx < len(needle) && needle[rareIdx] == rareByte
+//@   ensures firstOcc(haystack, needle, result)
+//@   loop 1: invariant 0 <= searchStart && searchStart <= haystackLen && haystackLen == len(haystack) && needleLen == len(needle)
+//@   loop 1: invariant forall p :: occAt(haystack, needle, p) ==> p + rareIdx >= searchStart
+//@   loop 1: decreases haystackLen - searchStart
+
+//@ func memmemPaired
+//@   props C18 C07
+//@   requires len(needle) >= 2
+//@   requires 0 <= rareInfo.Index1 && rareInfo.Index1 < len(needle) && needle[rareInfo.Index1] == rareInfo.Byte1
+//@   requires 0 <= rareInfo.Index2 && rareInfo.Index2 < len(needle) && needle[rareInfo.Index2] == rareInfo.Byte2
+//@   ensures firstOcc(haystack, needle, result)
+//@   loop 1: invariant 0 <= searchStart && searchStart <= haystackLen && haystackLen == len(haystack) && needleLen == len(needle)
+//@   loop 1: invariant 0 <= idx1 && idx1 <= idx2 && idx2 < needleLen && offset == idx2 - idx1 && needle[idx1] == byte1 && needle[idx2] == byte2
+//@   loop 1: invariant forall p :: occAt(haystack, needle, p) ==> p + idx1 >= searchStart
+//@   loop 1: decreases haystackLen - searchStart
+
+//@ func memmemShort
+//@   props C18 C07
+//@   requires len(needle) >= 2
+//@   ensures firstOcc(haystack, needle, result)
+
+//@ func memmemLong
+//@   props C18 C07
+//@   requires len(needle) >= 2
+//@   ensures firstOcc(haystack, needle, result)
+
+//@ func Memmem
+//@   props C18 C07 C16
+//@   ensures len(needle) > 0 ==> firstOcc(haystack, needle, result)
+//@   ensures len(needle) == 0 ==> result == 0
